@@ -47,6 +47,8 @@ type Config struct {
 	NoMerge        bool     // disable if-conversion
 	KnownFindings  map[string]bool
 	Params         map[string]int
+	ByteDomains    bool // decide single-byte conditions by exact domain evaluation
+	DomainAudit    int  // re-decide every n-th domain verdict with the solver (0 = never)
 }
 
 // State of one worker. Not shared between workers.
@@ -62,9 +64,11 @@ type interpreter struct {
 	funcCache          map[string]*ssa.Function
 	called             map[*ssa.Function]int
 
-	tb       *smt.Table
-	sess     *smt.Session
-	tabCache map[string][]uint64
+	tb         *smt.Table
+	sess       *smt.Session
+	tabCache   map[string][]uint64
+	setupCache map[string]value
+	varMemo    map[int]*smt.Term
 
 	p     *pathState
 	sched *scheduler
@@ -724,15 +728,17 @@ func (i *interpreter) lookupFunc(pkgPath, name string) *ssa.Function {
 // newInterpreter creates the per-worker interpreter state.
 func newInterpreter(prog *ssa.Program, cfg *Config) (*interpreter, error) {
 	i := &interpreter{
-		prog:      prog,
-		globals:   make(map[*ssa.Global]*value),
-		pkgInit:   make(map[*ssa.Package]int),
-		cfg:       cfg,
-		sizes:     &types.StdSizes{WordSize: 8, MaxAlign: 8},
-		funcCache: make(map[string]*ssa.Function),
-		called:    make(map[*ssa.Function]int),
-		tb:        smt.NewTable(),
-		tabCache:  map[string][]uint64{},
+		prog:       prog,
+		globals:    make(map[*ssa.Global]*value),
+		pkgInit:    make(map[*ssa.Package]int),
+		cfg:        cfg,
+		sizes:      &types.StdSizes{WordSize: 8, MaxAlign: 8},
+		funcCache:  make(map[string]*ssa.Function),
+		called:     make(map[*ssa.Function]int),
+		tb:         smt.NewTable(),
+		tabCache:   map[string][]uint64{},
+		setupCache: map[string]value{},
+		varMemo:    map[int]*smt.Term{},
 	}
 	runtimePkg := prog.ImportedPackage("runtime")
 	if runtimePkg == nil {
